@@ -18,6 +18,7 @@ import (
 
 	"github.com/kardiachain/go-kardia/configs"
 	"github.com/kardiachain/go-kardia/lib/common"
+	"github.com/kardiachain/go-kardia/mainchain/tx_pool"
 	"github.com/kardiachain/go-kardia/types"
 )
 
@@ -277,7 +278,31 @@ func (g *gen) initCode(depth int) []byte {
 	return a.b
 }
 
+// precompileCall: an inner CALL / STATICCALL to a precompile (most often RIPEMD-160) or to an address that does not exist,
+// value 0 or 1, with anything between no gas and all gas: the inner frame runs out of gas and is reverted, the outer goes on
+func (g *gen) precompileCall(a *asm) {
+	var to common.Address
+	switch k := g.rng.Intn(10); {
+	case k < 5:
+		to = common.BytesToAddress([]byte{3})
+	case k < 8:
+		to = common.BytesToAddress([]byte{byte(1 + g.rng.Intn(9))})
+	default:
+		to = g.s.ghost[g.rng.Intn(len(g.s.ghost))]
+	}
+	gas := []int{0, 50, 100, 300, 599, 700, 2000, -1}[g.rng.Intn(8)]
+	if g.rng.Intn(5) == 0 {
+		a.call(opSTATICCALL, to, 0, gas)
+		return
+	}
+	a.call(opCALL, to, uint64(g.rng.Intn(4)/3), gas)
+}
+
 func (g *gen) statement(a *asm, depth int) {
+	if g.rng.Intn(12) == 0 {
+		g.precompileCall(a)
+		return
+	}
 	switch r := g.rng.Intn(24); {
 	case r < 7:
 		a.call(opCALL, g.target(), g.amount(), g.callGas())
@@ -337,6 +362,7 @@ type genTx struct {
 }
 
 type chainView interface {
+	hasCode(a common.Address) bool
 	nonce(a common.Address) uint64
 	balance(a common.Address) *big.Int
 	valContract(owner common.Address) common.Address // validator contract of a validator owner (zero: none)
@@ -348,6 +374,15 @@ type txGen struct {
 	g      *gen
 	signer types.Signer
 	next   map[common.Address]uint64 // next nonce per sender within the block being generated
+	legacy bool                      // pre-Galaxias rules at the height of the block (intrinsic gas)
+}
+
+func (t *txGen) intrinsic(data []byte) uint64 {
+	g, err := tx_pool.IntrinsicGas(data, false, t.legacy)
+	if err != nil {
+		panic(err)
+	}
+	return g
 }
 
 func (t *txGen) sign(tx *types.Transaction, k *ecdsa.PrivateKey) *types.Transaction {
@@ -392,7 +427,7 @@ func (t *txGen) one(view chainView, handMade bool) genTx {
 	small := func() *big.Int { return big.NewInt(int64(t.g.amount())) }
 	var tx *types.Transaction
 	switch k := r.Intn(100); {
-	case k < 18: // plain transfer
+	case k < 15: // plain transfer
 		to := t.g.target()
 		v := small()
 		if r.Intn(6) == 0 {
@@ -400,7 +435,7 @@ func (t *txGen) one(view chainView, handMade bool) genTx {
 			out.pool = false
 		}
 		tx, out.kind = mk(&to, v, nil), "transfer"
-	case k < 40: // call of a generated contract (or whatever sits at that address)
+	case k < 33: // call of a generated contract (or whatever sits at that address)
 		to := t.s.contract[r.Intn(len(t.s.contract))]
 		var data []byte
 		if r.Intn(3) == 0 {
@@ -408,14 +443,30 @@ func (t *txGen) one(view chainView, handMade bool) genTx {
 			r.Read(data)
 		}
 		tx, out.kind = mk(&to, small(), data), "call"
-	case k < 52: // contract creation
+	case k < 43: // contract creation
 		tx, out.kind = mk(nil, small(), t.g.initCode(0)), "create"
-	case k < 58: // resurrection kit: destroy the victim / re-create it at the same address (often within one block)
+	case k < 48: // resurrection kit: destroy the victim / re-create it at the same address (often within one block)
 		if r.Intn(2) == 0 {
 			tx, out.kind = mk(&t.s.victim, small(), nil), "victim-kill"
 		} else {
 			tx, out.kind = mk(&t.s.factory, new(big.Int), nil), "victim-resurrect"
 		}
+	case k < 58: // a precompile (1..9, most often RIPEMD-160 = 3: its touch survives a reverted frame in the journal) or an address that
+		// does not exist is called at top level: value 0 or not, with ample gas or with so little that the frame runs out of gas
+		to := t.precompileOrGhost()
+		v := new(big.Int)
+		if r.Intn(4) == 0 {
+			v = small()
+		}
+		var data []byte
+		if r.Intn(3) == 0 {
+			data = make([]byte, r.Intn(70))
+			r.Read(data)
+		}
+		if r.Intn(3) != 0 {
+			gas = t.intrinsic(data) + uint64(r.Intn(700)) // the precompile's own gas does not fit
+		}
+		tx, out.kind = mk(&to, v, data), "precompile-call"
 	case k < 62 && handMade: // pre-check rejections: nonce too high / too low
 		if r.Intn(2) == 0 {
 			nonce += uint64(1 + r.Intn(3))
@@ -460,6 +511,73 @@ func (t *txGen) one(view chainView, handMade bool) genTx {
 	t.next[from] = nonce + 1
 	out.tx = t.sign(tx, key)
 	return out
+}
+
+func (t *txGen) precompileOrGhost() common.Address {
+	switch k := t.rng.Intn(10); {
+	case k < 5:
+		return common.BytesToAddress([]byte{3})
+	case k < 8:
+		return common.BytesToAddress([]byte{byte(1 + t.rng.Intn(9))})
+	default:
+		return t.s.ghost[t.rng.Intn(len(t.s.ghost))]
+	}
+}
+
+// destructRevert: the victim is destroyed, and a LATER transaction of the same block re-creates its account object (value
+// transfer to it / CREATE2 at its address) inside a call frame that is reverted -- the whole transaction reverts, or only
+// an inner frame while a sibling frame and the transaction succeed.  followUp says that the next block should read the
+// victim (readers).  When the victim holds no code at the start of the block it is re-created for a later block instead.
+func (t *txGen) destructRevert(view chainView) (txs []genTx, followUp bool) {
+	from, key := t.s.sndAddr[0], t.s.sndKeys[0]
+	nonce, ok := t.next[from]
+	if !ok {
+		nonce = view.nonce(from)
+	}
+	mk := func(to common.Address, value int64, gas uint64, kind string) {
+		tx := types.NewTransaction(nonce, to, big.NewInt(value), gas, big.NewInt(1), nil)
+		txs = append(txs, genTx{tx: t.sign(tx, key), kind: kind, pool: true})
+		nonce++
+	}
+	if !view.hasCode(t.s.victim) {
+		mk(t.s.factory, 0, 600000, "victim-resurrect")
+		t.next[from] = nonce
+		return txs, false
+	}
+	mk(t.s.victim, int64(t.rng.Intn(5)), 200000, "victim-kill")
+	switch t.rng.Intn(4) {
+	case 0:
+		mk(t.s.revToucher, 0, 300000, "recreate-reverted:transfer")
+	case 1:
+		mk(t.s.sibToucher, 0, 400000, "recreate-reverted:transfer-inner")
+	case 2:
+		mk(t.s.revWrap, 0, 900000, "recreate-reverted:create2")
+	default:
+		mk(t.s.sibWrap, 0, 900000, "recreate-reverted:create2-inner")
+	}
+	t.next[from] = nonce
+	return txs, true
+}
+
+// readers: transactions that read the victim's account (balance, code hash, code size, a call that runs whatever code is there,
+// a plain transfer to it): what a node serves from its snapshot tree and what it reads from the trie must agree.
+func (t *txGen) readers(view chainView) (txs []genTx) {
+	from, key := t.s.sndAddr[1], t.s.sndKeys[1]
+	nonce, ok := t.next[from]
+	if !ok {
+		nonce = view.nonce(from)
+	}
+	for _, x := range []struct {
+		to    common.Address
+		value int64
+		kind  string
+	}{{t.s.probe, 0, "victim-probe"}, {t.s.victim, 5, "victim-transfer"}, {t.s.probe, 0, "victim-probe"}} {
+		tx := types.NewTransaction(nonce, x.to, big.NewInt(x.value), 400000, big.NewInt(1), nil)
+		txs = append(txs, genTx{tx: t.sign(tx, key), kind: x.kind, pool: true})
+		nonce++
+	}
+	t.next[from] = nonce
+	return txs
 }
 
 // resurrection generates the pair "destroy the victim, re-create it at the same address" as two consecutive transactions of
